@@ -17,7 +17,7 @@ files = {
  'C11': 'Model/Codegen, Spec/Codegen',
  'C12': 'Model/Interceptor, Basic/HMapLite, Spec/Interceptor',
  'C13': 'Model/Shutdown, Spec/Shutdown',
- 'C14': 'Model/Reconnect, Basic/{ConnScript,ErrChain}, Spec/Reconnect',
+ 'C14': 'Model/Reconnect, Model/Balance, Basic/{ConnScript,ErrChain,BalScript}, Spec/Reconnect, Spec/Balance',
  'C15': 'Model/Tls, Basic/{TlsVocab,TlsTestPki}, Spec/Tls',
  'C16': 'Model/WebServer, Basic/TrailerMap, Spec/GrpcWeb',
  'C17': 'Model/WebClient, Model/WebCaller, Spec/GrpcWeb',
@@ -39,7 +39,7 @@ ties = {
  'C11': 'c11.rs: gen, manual, prost (syn-parsed output; message kinds × compile_well_known_types × proto_path × extern), srv (compiled generated servers driven directly), e2e, regen (byte comparison of the 8 committed files)',
  'C12': 'c12.rs: line, status, ops, pairs, accept, reject, seq, ready, odd, routed, client',
  'C13': 'c13.rs: real Server over duplex, paused time, scripts of offers/calls/phases/signal/age, racy variants',
- 'C14': 'c14.rs: unit (hooked Reconnect), sess (tower Buffer), e2e/e2n/e2d/e2x (Endpoint + scripted connector + real servers; deadlines, in-flight death, concurrent pairs, limit layers, failure causes), cls (Status::from_error on error chains), net (Endpoint::connect / connect_lazy over loopback TCP and UDS)',
+ 'C14': 'c14.rs: unit (hooked Reconnect), sess (tower Buffer), e2e/e2n/e2d/e2x (Endpoint + scripted connector + real servers; deadlines, in-flight death, concurrent pairs, limit layers, failure causes), cls (Status::from_error on error chains), net (Endpoint::connect / connect_lazy over loopback TCP and UDS), bal (Channel::balance_list / balance_channel over up to three loopback TCP endpoints, insert / remove; trace explained by some sequence of balancer choices)',
  'C15': 'c15.rs: tls (486-matrix on TCP and duplex, second realisations, unusable CA bundles, random builder sequences, multi-client, one config value / derived configs / endpoint clones across several endpoints), tlsf (side builds with root stores), srvcfg',
  'C16': 'c16.rs: resp, req, call (whole request seen by the inner service and whole response; 12 methods × 5 versions × 16 content-types × 9 accepts); chunks to 100 000 B, trailer blocks > 64 KiB',
  'C17': 'c17.rs: cl, creq (every truncation, every chunking of small bodies), st (real client::Grpc over the client layer); executor with waker discipline',
